@@ -41,6 +41,13 @@ NatDigits(a) ==
   IF BNCmp(a, Ten) < 0 THEN <<48 + BNToInt(a)>>
   ELSE NatDigits(BNQuoTrunc(a, Ten)) \o <<48 + BNToInt(BNRem(a, Ten))>>
 
+(* number of decimal digits of a positive integer, from its bit length and  *)
+(* one comparison with a power of ten (no long division)                    *)
+NumDigits(a) ==
+  LET b   == BNBitLen(a) + a.e
+      est == (b * 30103) \div 100000          \* floor(b * log10(2)); the answer is est or est + 1
+  IN IF BNCmp(a, BNPow10(est)) >= 0 THEN est + 1 ELSE est
+
 IntText(a) == IF BNSign(a) < 0 THEN <<ChMinus>> \o NatDigits(BNAbs(a)) ELSE NatDigits(a)
 
 RECURSIVE AllDigits(_, _, _)
@@ -96,7 +103,7 @@ DecimalToDouble(p) ==
      IF p.exp10 > 400 THEN (IF BNIsZero(BNFromDecimal(p.neg, p.digs, 0)) THEN BNZero
                             ELSE [inf |-> TRUE, neg |-> p.neg])
      ELSE BNRoundToDouble(BNFromDecimal(p.neg, p.digs, p.exp10))
-  ELSE IF p.exp10 < -400 THEN BNZero    \* underflow (digit strings here are short)
+  ELSE IF Len(p.digs) + p.exp10 < -400 THEN BNZero    \* below 1e-400: underflows to zero
   ELSE BNDivToDouble(BNFromDecimal(p.neg, p.digs, 0), BNPow10(-p.exp10))
 
 (* strconv.ParseFloat on a string item / json.Number text for .double() and *)
@@ -152,7 +159,9 @@ DoubleOfItem(v, strict) ==
                       IN (* hex floats and digit separators: strconv accepts some; not decided *)
                          IF (Len(b) >= 2 /\ b[1] = 48 /\ b[2] = 120) \/ FindByte(ls, 95, 1) # 0
                          THEN NErr("opaque") ELSE NErr(bad)
-               ELSE IF IsInf(p.d) THEN NErr("verbose") ELSE NOk(VNum("f", p.d))
+               (* a decimal text beyond float64 range is a conversion error of *)
+               (* strconv, reported like unparsable text                        *)
+               ELSE IF IsInf(p.d) THEN NErr(bad) ELSE NOk(VNum("f", p.d))
        [] OTHER -> NErr("verbose")
 
 RoundedInt(v) ==      \* the integer .integer()/.bigint() convert a number item to
@@ -236,7 +245,7 @@ DecimalMethod(n, v) ==
                          IN IF x.neg THEN BNNeg(m) ELSE m
               (* number of integer digits of |rounded| (rounded = ri * 10^-s) *)
               mag    == BNAbs(ri)
-              ndig   == IF BNIsZero(mag) THEN 0 ELSE Len(NatDigits(mag))
+              ndig   == IF BNIsZero(mag) THEN 0 ELSE NumDigits(mag)
               (* digits before the decimal point; zero or negative when the  *)
               (* value is below 1 (leading zeros after the point count down) *)
               intdig == ndig - s
